@@ -22,6 +22,11 @@ var noEffectPkgs = []string{
 var pureFuncs = map[string]bool{
 	"golang.org/x/crypto/blake2b.Sum256": true, "golang.org/x/crypto/blake2b.Sum512": true,
 	"crypto/aes.NewCipher": true, "crypto/cipher.NewGCM": true,
+	// reflection used as plumbing (values carried in and out): effects through reflect.Value.Set are not modelled
+	"reflect.ValueOf": true, "reflect.TypeOf": true, "reflect.New": true, "(reflect.Value).Interface": true, "(reflect.Value).Elem": true,
+	"(reflect.Value).Convert": true, "(reflect.Value).Set": true, "(reflect.Value).Type": true, "(reflect.Value).Kind": true, "(reflect.Value).Len": true,
+	"(reflect.Value).CanAddr": true, "(reflect.Value).Addr": true, "(reflect.Value).IsNil": true, "(reflect.Value).Index": true,
+	"io.LimitReader": true,
 	// hashing helpers of the module: digests are uninterpreted (results unconstrained), inputs only read
 	"github.com/ChainSafe/gossamer/lib/common.Blake2bHash": true, "github.com/ChainSafe/gossamer/lib/common.MustBlake2bHash": true,
 	"github.com/ChainSafe/gossamer/lib/common.Blake2b128": true, "github.com/ChainSafe/gossamer/lib/common.Keccak256": true,
@@ -145,6 +150,105 @@ func DefaultModels() map[string]Model {
 		w := x.memWords(st, args[0])
 		x.setGhost(st, "memwords:"+args[0].L[1].String(), Ite(ok, Store(w, off, args[2].L[0]), w))
 		return retOne(st, boolV(ok))
+	}
+	// ---- io.ReadFull(r, buf): all len(buf) bytes or an error. When r is (a wrapper struct embedding) a
+	// *bytes.Buffer / *bytes.Reader the effect on that reader is exact; otherwise n and the bytes are unconstrained.
+	m["io.ReadFull"] = func(x *Exec, fr *Frame, st *State, args []Value, pos token.Pos) []Outcome {
+		r, buf := args[0], args[1]
+		bp := sl(buf)
+		errT := types.Universe.Lookup("error").Type()
+		x.oblige(fr, st, "nil", x.src(fr.fn, pos, "ReadFull")+"(reader)", pos, Not(Eq(r.L[0], IntLit(0))))
+		// unwrap: interface -> concrete pointer -> (struct with embedded io.Reader field)* -> bytes.Buffer/Reader
+		cur := r
+		for depth := 0; depth < 4; depth++ {
+			var T types.Type
+			if cur.L[0].IsLit {
+				T = x.c.tagTypes[int(cur.L[0].Val.Int64())]
+			} else if id, ok := x.dynTags[cur.L[0].String()]; ok {
+				T = x.c.tagTypes[id]
+			}
+			if T == nil {
+				break
+			}
+			pv := x.unbox(st, cur, T)
+			tn := typeName(T)
+			if tn == "*bytes.Buffer" || tn == "*bytes.Reader" {
+				loc := x.ptrLoc(pv)
+				stt := loc.T.Underlying().(*types.Struct)
+				fld := func(name string) *Loc {
+					for i := 0; i < stt.NumFields(); i++ {
+						if stt.Field(i).Name() == name {
+							l := *loc
+							lo, hi := x.c.fieldRange(stt, i)
+							l.Lo, l.Hi, l.T = loc.Lo+lo, loc.Lo+hi, stt.Field(i).Type()
+							return &l
+						}
+					}
+					return nil
+				}
+				dataF, posF := "buf", "off"
+				if tn == "*bytes.Reader" {
+					dataF, posF = "s", "i"
+				}
+				data := x.load(st, fld(dataF))
+				data.T = fld(dataF).T
+				off := x.idx64(x.load(st, fld(posF)))
+				dp := sl(data)
+				rem := BVBin("bvsub", dp.ln, off)
+				enough := x.define(st, "readfull_ok", BVCmp("bvsge", rem, bp.ln))
+				// bytes copied on success
+				c := x.comp(st, "arr:uint8", types.Typ[types.Uint8], 0)
+				src := Select(c, dp.base)
+				na := x.c.Fresh("readfull", SArr(idxSort, SBV(8)))
+				i := Var("i!q", idxSort)
+				rel := BVBin("bvsub", i, bp.off)
+				st.assume(Quant("forall", []*Term{i}, Eq(Select(na, i), Ite(And(enough, BVCmp("bvult", rel, bp.ln)),
+					Select(src, BVBin("bvadd", BVBin("bvadd", dp.off, off), rel)), Ite(BVCmp("bvult", rel, bp.ln), Select(x.c.Fresh("partial", SArr(idxSort, SBV(8))), i), Select(Select(c, bp.base), i)))), Select(na, i)))
+				x.setComp(st, "arr:uint8", types.Typ[types.Uint8], 0, Store(c, bp.base, na))
+				// position: advanced by len(buf) on success, to the end otherwise
+				npos := Ite(enough, BVBin("bvadd", off, bp.ln), dp.ln)
+				pf := fld(posF)
+				pw, _, _ := basicWidth(pf.T.Underlying().(*types.Basic))
+				x.store(st, pf, scalar(pf.T, Extract(pw-1, 0, npos)))
+				ev := x.freshError(st, errT)
+				n := Ite(enough, bp.ln, x.c.Fresh("readfull_n", idxSort))
+				e := Value{T: errT, L: []*Term{Ite(enough, IntLit(0), ev.L[0]), Ite(enough, IntLit(0), ev.L[1])}}
+				x.c.note("assumed: io.ReadFull over a bytes.Buffer/bytes.Reader copies len(buf) bytes and advances the position, or fails leaving the reader exhausted")
+				return []Outcome{{St: st, Kind: OutReturn, Rets: []Value{scalar(tInt, n), e}}}
+			}
+			// struct with an embedded / named io.Reader field?
+			pt, ok := T.Underlying().(*types.Pointer)
+			if !ok {
+				break
+			}
+			stt, ok := pt.Elem().Underlying().(*types.Struct)
+			if !ok {
+				break
+			}
+			found := false
+			for i := 0; i < stt.NumFields(); i++ {
+				if typeName(stt.Field(i).Type()) == "io.Reader" {
+					loc := *x.ptrLoc(pv)
+					lo, hi := x.c.fieldRange(stt, i)
+					loc.Lo, loc.Hi, loc.T = loc.Lo+lo, loc.Lo+hi, stt.Field(i).Type()
+					cur = x.load(st, &loc)
+					cur.T = loc.T
+					found = true
+					break
+				}
+			}
+			if !found {
+				break
+			}
+		}
+		// generic reader: unconstrained outcome with the library guarantee err == nil ==> n == len(buf)
+		x.havocReachable(st, buf)
+		n := x.c.Fresh("readfull_n", idxSort)
+		e := x.freshValue(st, "readfull_err", errT)
+		st.assume(Implies(Eq(e.L[0], IntLit(0)), Eq(n, bp.ln)))
+		st.assume(BVCmp("bvule", n, bp.ln))
+		x.c.note("assumed: io.ReadFull returns err == nil only if it filled the whole buffer")
+		return []Outcome{{St: st, Kind: OutReturn, Rets: []Value{scalar(tInt, n), e}}}
 	}
 	// ---- container/heap over a heap.Interface whose dynamic type is known: the element order is
 	// abstracted (the backing slice is permuted arbitrarily, non-nil-ness of its elements is preserved), and
